@@ -1,7 +1,7 @@
 (* C07 - Callbacks receive exactly the parameters they declare.  Statements only. *)
 From Coq Require Import List Arith Bool.
 Import ListNotations.
-From PySM Require Import Impl.Signature Proofs.SignatureProofs.
+From PySM Require Import Impl.Signature Spec.CallSpec Proofs.SignatureProofs Proofs.CallProofs Proofs.CallRoundTrip Proofs.CallContract.
 
 (* whatever the event carries, the binder binds declared parameters only: undeclared positional
    or keyword data is dropped by the adapter (for every signature, any number of parameters, every
@@ -40,6 +40,97 @@ Theorem C07_no_reserved_name_in_trigger :
   forall user n v, In (n, v) (trigger_kwargs user) -> reserved n = false.
 Proof. exact trigger_data_has_no_reserved_name. Qed.
 Print Assumptions C07_no_reserved_name_in_trigger.
+
+(* ---------- the contract, slot by slot ---------- *)
+(* [spec_bind] (Spec/CallSpec.v) is the declarative reading of "exactly the parameters it declares":
+   one pass over the declared parameters.  For every signature `def` accepts ([shape]), every list of
+   positional values and every keyword map in which no positional-only parameter is named (that
+   region is deviation D15 below), the binder computes exactly that assignment ... *)
+Theorem C07_binder_is_declarative_assignment :
+  forall sig args kw, shape sig = true -> no_posonly_named sig kw ->
+    bind_expected sig args kw = Bound (spec_bind sig args kw).
+Proof. exact bind_is_spec. Qed.
+Print Assumptions C07_binder_is_declarative_assignment.
+
+(* ... and the whole adapter (binder, then CPython's own binding of the call made with
+   BoundArguments.args / .kwargs) either raises "missing required argument" - exactly when the
+   assignment leaves a parameter without default unbound - or calls the callable with every declared
+   parameter receiving exactly its assigned value (star parameters: the assigned tuple / dict or an
+   empty one).  Undeclared data never causes a TypeError: no other error is possible. *)
+Theorem C07_callable_receives_declared_parameters :
+  forall sig args kw,
+    shape sig = true -> names_distinct sig = true -> distinct_keys kw = true -> no_posonly_named sig kw ->
+    let B := spec_bind sig args kw in
+    (missing sig B = true /\ adapter_call sig args kw = inl (CallTypeError 4))
+    \/ (missing sig B = false /\ exists A, adapter_call sig args kw = inl (Assigned A)
+          /\ forall p, In p sig -> arg_lookup (p_name p) A = received p B).
+Proof. exact adapter_contract. Qed.
+Print Assumptions C07_callable_receives_declared_parameters.
+
+(* the second half on its own, for any well-formed bound arguments (not only the binder's): handing
+   BoundArguments.args / .kwargs to a call re-creates the bound arguments *)
+Theorem C07_bound_arguments_round_trip :
+  forall B sig, shape sig = true -> names_distinct sig = true -> WB sig B ->
+    (missing sig B = true /\ py_call sig (ba_args sig B) (ba_kwargs sig B false) = CallTypeError 4)
+    \/ (missing sig B = false /\ exists A, py_call sig (ba_args sig B) (ba_kwargs sig B false) = Assigned A
+          /\ forall p, In p sig -> arg_lookup (p_name p) A = received p B).
+Proof. exact round_trip. Qed.
+Print Assumptions C07_bound_arguments_round_trip.
+
+(* what the assignment gives each kind of parameter *)
+Theorem C07_named_parameter_gets_keyword :
+  forall sig args kw p v, shape sig = true -> names_distinct sig = true -> In p sig ->
+    (p_kind p = PosOrKw \/ p_kind p = KwOnly) -> lookup (p_name p) kw = Some v ->
+    arg_lookup (p_name p) (spec_bind sig args kw) = Some (BOne v).
+Proof. exact named_parameter_gets_keyword. Qed.
+Print Assumptions C07_named_parameter_gets_keyword.
+
+Theorem C07_positional_parameters_in_order :
+  forall P T args kw,
+    (forall p, In p P -> is_positional p = true /\ lookup (p_name p) kw = None) ->
+    names_distinct (P ++ T) = true ->
+    forall i p a, nth_error P i = Some p -> nth_error args i = Some a ->
+      arg_lookup (p_name p) (spec_bind (P ++ T) args kw) = Some (BOne a).
+Proof. exact positional_parameters_in_order. Qed.
+Print Assumptions C07_positional_parameters_in_order.
+
+Theorem C07_star_args_gets_surplus :
+  forall P vp T args kw,
+    (forall p, In p P -> is_positional p = true) -> p_kind vp = VarPos ->
+    names_distinct (P ++ vp :: T) = true -> length P < length args ->
+    arg_lookup (p_name vp) (spec_bind (P ++ vp :: T) args kw) = Some (BTuple (skipn (length P) args)).
+Proof. exact varpos_gets_surplus. Qed.
+Print Assumptions C07_star_args_gets_surplus.
+
+Theorem C07_star_kwargs_gets_leftovers :
+  forall ps args kw vk,
+    shape ps = true -> names_distinct ps = true -> distinct_keys kw = true -> In vk ps -> p_kind vk = VarKw ->
+    arg_lookup (p_name vk) (spec_bind ps args kw) =
+      match filter (unconsumed ps) kw with [] => None | d => Some (BDict d) end.
+Proof. exact varkw_gets_leftovers. Qed.
+Print Assumptions C07_star_kwargs_gets_leftovers.
+
+(* non-vacuity: def cb(a, /, b, c=0, *rest, k, m=None, **others) called with (1, 2, 3, 4, 5) and
+   {b: 20, k: 7, zz: 9, 50: 350}: hypotheses hold, the callable is called, and receives
+   a=1, b=20, c=3, rest=(4, 5), k=7, others={zz: 9, 50: 350}, m unbound (its default) *)
+Example C07_contract_nonvacuous :
+  let sig := [ {| p_name := 1; p_kind := PosOnly; p_default := false |};
+               {| p_name := 2; p_kind := PosOrKw; p_default := false |};
+               {| p_name := 3; p_kind := PosOrKw; p_default := true |};
+               {| p_name := 4; p_kind := VarPos; p_default := false |};
+               {| p_name := 5; p_kind := KwOnly; p_default := false |};
+               {| p_name := 6; p_kind := KwOnly; p_default := true |};
+               {| p_name := 7; p_kind := VarKw; p_default := false |} ] in
+  let kw := [(2, 20); (5, 7); (99, 9); (50, 350)] in
+  shape sig = true /\ names_distinct sig = true /\ distinct_keys kw = true
+  /\ (forall p, In p sig -> p_kind p = PosOnly -> lookup (p_name p) kw = None)
+  /\ missing sig (spec_bind sig [1; 2; 3; 4; 5] kw) = false
+  /\ adapter_call sig [1; 2; 3; 4; 5] kw
+     = inl (Assigned [(1, BOne 1); (2, BOne 20); (3, BOne 3); (4, BTuple [4; 5]); (5, BOne 7); (7, BDict [(99, 9); (50, 350)])]).
+Proof.
+  cbv zeta. repeat split; try (vm_compute; reflexivity).
+  intros p Hp K. simpl in Hp. repeat (destruct Hp as [<-|Hp]; [try discriminate K; vm_compute; reflexivity|]). contradiction.
+Qed.
 
 (* the defect repaired by the fix: commit (a keyword-only parameter after surplus positionals) -
    the repaired binder delivers k: def cb(a, *, k=None), called with (1, 2, 3, k=5) *)
